@@ -54,12 +54,14 @@ def Den (g : Grammar) : Expr → List Char → List String → Prop
     | none => False
 
 /-- A token tree as the interpreter builds them: the `EOI` token, or a token of a grammar rule whose
-text and inner tokens lie in the denotation of the rule's body, with well-formed inner tokens. -/
-inductive WF (g : Grammar) : Tree → Prop
-  | eoi : WF g (.node "EOI" [] [])
+text and inner tokens lie in the denotation of the rule's body, with well-formed inner tokens.
+`X` is any further property of (rule name, inner token names) that successful runs of rule bodies have
+(used for facts that depend on *ordered* choice, which the denotation over-approximates). -/
+inductive WF (g : Grammar) (X : String → List String → Prop) : Tree → Prop
+  | eoi : WF g X (.node "EOI" [] [])
   | node (name : String) (text : List Char) (kids : List Tree) (rd : RuleDef) :
-      g.find name = some rd → Den g rd.body text (kids.map Tree.rule) → (∀ k, k ∈ kids → WF g k) →
-      WF g (.node name text kids)
+      g.find name = some rd → Den g rd.body text (kids.map Tree.rule) → X name (kids.map Tree.rule) →
+      (∀ k, k ∈ kids → WF g X k) → WF g X (.node name text kids)
 
 theorem stripPrefix_eq (p inp r : List Char) (h : stripPrefix (· == ·) p inp = some r) : inp = p ++ r := by
   induction p generalizing inp with
@@ -102,12 +104,33 @@ theorem RepP.mono {P : List Char → List String → Prop} {k : Nat} {c : List C
   | nil k => exact .nil _
   | cons k c1 n1 c2 n2 hp _ ih => exact .cons _ c1 n1 c2 n2 hp ih
 
+theorem ofOpt_ok (o : Option (List Char)) (ts : List Tree) (r : List Char) (h : Res.ofOpt o = .ok ts r) :
+    ts = [] ∧ o = some r := by
+  cases o with
+  | none => simp [Res.ofOpt] at h
+  | some x => simp only [Res.ofOpt, Res.ok.injEq] at h; exact ⟨h.1.symm, by rw [h.2]⟩
+
+theorem oneChar_ok (p : Char → Bool) (inp : List Char) (ts : List Tree) (r : List Char)
+    (h : oneChar p inp = .ok ts r) : ∃ ch, inp = ch :: r ∧ p ch = true ∧ ts = [] := by
+  cases inp with
+  | nil => simp [oneChar] at h
+  | cons c cs =>
+    simp only [oneChar] at h
+    split at h
+    · rename_i hp
+      simp only [Res.ok.injEq] at h
+      exact ⟨c, by rw [h.2], hp, h.1.symm⟩
+    · cases h
+
 /-- **Soundness of the interpreter with respect to the denotation**: every successful run consumes
 a prefix `c` of the input that lies in `Den g e`, with exactly the listed top-level tokens, and all
 tokens it returns are well-formed. -/
-theorem run_sound (g : Grammar) : ∀ (fuel : Nat) (e : Expr) (atStart : Bool) (inp : List Char)
-    (ts : List Tree) (r : List Char), run g fuel e atStart inp = some (ts, r) →
-    ∃ c, inp = c ++ r ∧ Den g e c (ts.map Tree.rule) ∧ ∀ t, t ∈ ts → WF g t := by
+theorem run_sound (g : Grammar) (X : String → List String → Prop)
+    (hX : ∀ name rd fuel s inp ts r, g.find name = some rd → run g fuel rd.body s inp = .ok ts r →
+      X name (ts.map Tree.rule)) :
+    ∀ (fuel : Nat) (e : Expr) (atStart : Bool) (inp : List Char)
+    (ts : List Tree) (r : List Char), run g fuel e atStart inp = .ok ts r →
+    ∃ c, inp = c ++ r ∧ Den g e c (ts.map Tree.rule) ∧ ∀ t, t ∈ ts → WF g X t := by
   intro fuel
   induction fuel with
   | zero => intro e atStart inp ts r h; simp [run] at h
@@ -115,116 +138,81 @@ theorem run_sound (g : Grammar) : ∀ (fuel : Nat) (e : Expr) (atStart : Bool) (
     intro e atStart inp ts r h
     cases e with
     | str s =>
-      simp only [run, Option.map_eq_some_iff] at h
-      obtain ⟨r', hr, he⟩ := h
-      injection he with h1 h2; subst h1; subst h2
+      simp only [run] at h
+      obtain ⟨rfl, hr⟩ := ofOpt_ok _ _ _ h
       exact ⟨s, stripPrefix_eq s inp _ hr, by simp [Den], by simp⟩
     | istr s =>
-      simp only [run, Option.map_eq_some_iff] at h
-      obtain ⟨r', hr, he⟩ := h
-      injection he with h1 h2; subst h1; subst h2
+      simp only [run] at h
+      obtain ⟨rfl, hr⟩ := ofOpt_ok _ _ _ h
       obtain ⟨c, hc, hm⟩ := stripPrefix_lower s inp _ hr
       exact ⟨c, hc, by simp [Den, hm], by simp⟩
     | range lo hi =>
       simp only [run] at h
-      cases inp with
-      | nil => simp at h
-      | cons ch cs =>
-        simp only at h
-        split at h
-        · rename_i hb
-          injection h with h; injection h with h1 h2; subst h1; subst h2
-          exact ⟨[ch], by simp, by simp [Den, hb.1, hb.2], by simp⟩
-        · cases h
+      obtain ⟨ch, rfl, hp, rfl⟩ := oneChar_ok _ _ _ _ h
+      simp only [decide_eq_true_eq] at hp
+      exact ⟨[ch], by simp, by simp [Den, hp.1, hp.2], by simp⟩
     | builtin b =>
       cases b with
       | soi =>
         simp only [run] at h
         split at h
-        · injection h with h; injection h with h1 h2; subst h1; subst h2
+        · simp only [Res.ok.injEq] at h
+          obtain ⟨rfl, rfl⟩ := h
           exact ⟨[], by simp, by simp [Den, DenB], by simp⟩
         · cases h
       | eoi =>
         simp only [run] at h
         split at h
-        · rename_i he
-          injection h with h; injection h with h1 h2; subst h1; subst h2
+        · simp only [Res.ok.injEq] at h
+          obtain ⟨rfl, rfl⟩ := h
           refine ⟨[], by simp, by simp [Den, DenB, Tree.rule], ?_⟩
           intro t ht; simp at ht; subst ht; exact .eoi
         · cases h
       | any =>
         simp only [run] at h
-        cases inp with
-        | nil => simp at h
-        | cons ch cs =>
-          simp only at h
-          injection h with h; injection h with h1 h2; subst h1; subst h2
-          exact ⟨[ch], by simp, by simp [Den, DenB], by simp⟩
+        obtain ⟨ch, rfl, _, rfl⟩ := oneChar_ok _ _ _ _ h
+        exact ⟨[ch], by simp, by simp [Den, DenB], by simp⟩
       | newline =>
         simp only [run] at h
         split at h
-        · injection h with h; injection h with h1 h2; subst h1; subst h2
+        · simp only [Res.ok.injEq] at h
+          obtain ⟨rfl, rfl⟩ := h
           exact ⟨['\n'], by simp, by simp [Den, DenB], by simp⟩
-        · injection h with h; injection h with h1 h2; subst h1; subst h2
+        · simp only [Res.ok.injEq] at h
+          obtain ⟨rfl, rfl⟩ := h
           exact ⟨['\r', '\n'], by simp, by simp [Den, DenB], by simp⟩
-        · injection h with h; injection h with h1 h2; subst h1; subst h2
+        · simp only [Res.ok.injEq] at h
+          obtain ⟨rfl, rfl⟩ := h
           exact ⟨['\r'], by simp, by simp [Den, DenB], by simp⟩
         · cases h
       | ascii_bin_digit =>
         simp only [run] at h
-        cases inp with
-        | nil => simp at h
-        | cons ch cs =>
-          simp only at h
-          split at h
-          · rename_i hb
-            injection h with h; injection h with h1 h2; subst h1; subst h2
-            refine ⟨[ch], by simp, ?_, by simp⟩
-            simp only [Den, DenB, List.map_nil, and_true]
-            exact ⟨ch, rfl, by simpa using hb⟩
-          · cases h
+        obtain ⟨ch, rfl, hp, rfl⟩ := oneChar_ok _ _ _ _ h
+        refine ⟨[ch], by simp, ?_, by simp⟩
+        simp only [Den, DenB, List.map_nil, and_true]
+        exact ⟨ch, rfl, by simpa using hp⟩
       | ascii_hex_digit =>
         simp only [run] at h
-        cases inp with
-        | nil => simp at h
-        | cons ch cs =>
-          simp only at h
-          split at h
-          · rename_i hb
-            injection h with h; injection h with h1 h2; subst h1; subst h2
-            exact ⟨[ch], by simp, by simp [Den, DenB, hb], by simp⟩
-          · cases h
+        obtain ⟨ch, rfl, hp, rfl⟩ := oneChar_ok _ _ _ _ h
+        exact ⟨[ch], by simp, by simp [Den, DenB, hp], by simp⟩
       | ascii_alpha =>
         simp only [run] at h
-        cases inp with
-        | nil => simp at h
-        | cons ch cs =>
-          simp only at h
-          split at h
-          · rename_i hb
-            injection h with h; injection h with h1 h2; subst h1; subst h2
-            exact ⟨[ch], by simp, by simp [Den, DenB, hb], by simp⟩
-          · cases h
+        obtain ⟨ch, rfl, hp, rfl⟩ := oneChar_ok _ _ _ _ h
+        exact ⟨[ch], by simp, by simp [Den, DenB, hp], by simp⟩
       | ascii_alphanumeric =>
         simp only [run] at h
-        cases inp with
-        | nil => simp at h
-        | cons ch cs =>
-          simp only at h
-          split at h
-          · rename_i hb
-            injection h with h; injection h with h1 h2; subst h1; subst h2
-            refine ⟨[ch], by simp, ?_, by simp⟩
-            simp only [Den, DenB, List.map_nil, and_true]
-            exact ⟨ch, rfl, by simpa using hb⟩
-          · cases h
+        obtain ⟨ch, rfl, hp, rfl⟩ := oneChar_ok _ _ _ _ h
+        refine ⟨[ch], by simp, ?_, by simp⟩
+        simp only [Den, DenB, List.map_nil, and_true]
+        exact ⟨ch, rfl, by simpa using hp⟩
     | seq a b =>
       simp only [run] at h
       split at h
       · rename_i ta r1 ha
         split at h
         · rename_i tb r2 hb
-          injection h with h; injection h with h1 h2; subst h1; subst h2
+          simp only [Res.ok.injEq] at h
+          obtain ⟨rfl, rfl⟩ := h
           obtain ⟨c1, e1, d1, w1⟩ := ih a _ _ _ _ ha
           obtain ⟨c2, e2, d2, w2⟩ := ih b _ _ _ _ hb
           refine ⟨c1 ++ c2, by rw [e1, e2]; simp, ?_, ?_⟩
@@ -235,34 +223,46 @@ theorem run_sound (g : Grammar) : ∀ (fuel : Nat) (e : Expr) (atStart : Bool) (
             · exact w1 t ht
             · exact w2 t ht
         · cases h
+        · cases h
+      · cases h
       · cases h
     | choice a b =>
       simp only [run] at h
       split at h
-      · rename_i res ha
-        injection h with h; subst h
+      · rename_i ts' r' ha
+        simp only [Res.ok.injEq] at h
+        obtain ⟨rfl, rfl⟩ := h
         obtain ⟨c, e1, d1, w1⟩ := ih a _ _ _ _ ha
         exact ⟨c, e1, by simp only [Den]; exact Or.inl d1, w1⟩
       · obtain ⟨c, e1, d1, w1⟩ := ih b _ _ _ _ h
         exact ⟨c, e1, by simp only [Den]; exact Or.inr d1, w1⟩
+      · cases h
     | opt a =>
       simp only [run] at h
       split at h
-      · rename_i res ha
-        injection h with h; subst h
+      · rename_i ts' r' ha
+        simp only [Res.ok.injEq] at h
+        obtain ⟨rfl, rfl⟩ := h
         obtain ⟨c, e1, d1, w1⟩ := ih a _ _ _ _ ha
         exact ⟨c, e1, by simp only [Den]; exact Or.inr d1, w1⟩
-      · injection h with h; injection h with h1 h2; subst h1; subst h2
+      · simp only [Res.ok.injEq] at h
+        obtain ⟨rfl, rfl⟩ := h
         exact ⟨[], by simp, by simp [Den], by simp⟩
+      · cases h
     | star a =>
       simp only [run] at h
       split at h
       · rename_i ta r1 ha
         obtain ⟨c1, e1, d1, w1⟩ := ih a _ _ _ _ ha
+        have hsingle : Den g (.star a) c1 (ta.map Tree.rule) := by
+          simp only [Den]
+          have := StarP.cons c1 (ta.map Tree.rule) [] [] d1 (.nil (P := Den g a))
+          simpa using this
         split at h
         · split at h
           · rename_i tb r2 hb
-            injection h with h; injection h with h1 h2; subst h1; subst h2
+            simp only [Res.ok.injEq] at h
+            obtain ⟨rfl, rfl⟩ := h
             obtain ⟨c2, e2, d2, w2⟩ := ih (.star a) _ _ _ _ hb
             refine ⟨c1 ++ c2, by rw [e1, e2]; simp, ?_, ?_⟩
             · simp only [Den, List.map_append] at d2 ⊢
@@ -271,18 +271,17 @@ theorem run_sound (g : Grammar) : ∀ (fuel : Nat) (e : Expr) (atStart : Bool) (
               rcases ht with ht | ht
               · exact w1 t ht
               · exact w2 t ht
-          · injection h with h; injection h with h1 h2; subst h1; subst h2
-            refine ⟨c1, e1, ?_, w1⟩
-            simp only [Den]
-            have := StarP.cons c1 (ta.map Tree.rule) [] [] d1 (.nil (P := Den g a))
-            simpa using this
-        · injection h with h; injection h with h1 h2; subst h1; subst h2
-          refine ⟨c1, e1, ?_, w1⟩
-          simp only [Den]
-          have := StarP.cons c1 (ta.map Tree.rule) [] [] d1 (.nil (P := Den g a))
-          simpa using this
-      · injection h with h; injection h with h1 h2; subst h1; subst h2
+          · simp only [Res.ok.injEq] at h
+            obtain ⟨rfl, rfl⟩ := h
+            exact ⟨c1, e1, hsingle, w1⟩
+          · cases h
+        · simp only [Res.ok.injEq] at h
+          obtain ⟨rfl, rfl⟩ := h
+          exact ⟨c1, e1, hsingle, w1⟩
+      · simp only [Res.ok.injEq] at h
+        obtain ⟨rfl, rfl⟩ := h
         exact ⟨[], by simp, by simp only [Den, List.map_nil]; exact .nil, by simp⟩
+      · cases h
     | plus a =>
       simp only [run] at h
       split at h
@@ -290,7 +289,8 @@ theorem run_sound (g : Grammar) : ∀ (fuel : Nat) (e : Expr) (atStart : Bool) (
         obtain ⟨c1, e1, d1, w1⟩ := ih a _ _ _ _ ha
         split at h
         · rename_i tb r2 hb
-          injection h with h; injection h with h1 h2; subst h1; subst h2
+          simp only [Res.ok.injEq] at h
+          obtain ⟨rfl, rfl⟩ := h
           obtain ⟨c2, e2, d2, w2⟩ := ih (.star a) _ _ _ _ hb
           refine ⟨c1 ++ c2, by rw [e1, e2]; simp, ?_, ?_⟩
           · simp only [Den, List.map_append] at d2 ⊢
@@ -299,25 +299,36 @@ theorem run_sound (g : Grammar) : ∀ (fuel : Nat) (e : Expr) (atStart : Bool) (
             rcases ht with ht | ht
             · exact w1 t ht
             · exact w2 t ht
-        · injection h with h; injection h with h1 h2; subst h1; subst h2
+        · simp only [Res.ok.injEq] at h
+          obtain ⟨rfl, rfl⟩ := h
           refine ⟨c1, e1, ?_, w1⟩
           simp only [Den]
           exact ⟨c1, _, [], [], d1, .nil, by simp, by simp⟩
+        · cases h
+      · cases h
       · cases h
     | rep a mn mx =>
       simp only [run] at h
       split at h
       · rename_i hmx
-        injection h with h; injection h with h1 h2; subst h1; subst h2
+        simp only [Res.ok.injEq] at h
+        obtain ⟨rfl, rfl⟩ := h
         exact ⟨[], by simp, by simp only [Den, List.map_nil]; exact ⟨.nil _, fun _ h0 => absurd hmx h0⟩, by simp⟩
       · rename_i hmx
         obtain ⟨k, hk⟩ : ∃ k, mx = k + 1 := ⟨mx - 1, by omega⟩
         split at h
         · rename_i ta r1 ha
           obtain ⟨c1, e1, d1, w1⟩ := ih a _ _ _ _ ha
+          have hsingle : Den g (.rep a mn mx) c1 (ta.map Tree.rule) := by
+            simp only [Den]
+            subst hk
+            simp only [Nat.add_sub_cancel]
+            have := RepP.cons k c1 (ta.map Tree.rule) [] [] d1 (.nil (P := Den g a) k)
+            exact ⟨by simpa using this, fun _ _ => ⟨c1, _, [], [], d1, .nil _, by simp, by simp⟩⟩
           split at h
           · rename_i tb r2 hb
-            injection h with h; injection h with h1 h2; subst h1; subst h2
+            simp only [Res.ok.injEq] at h
+            obtain ⟨rfl, rfl⟩ := h
             obtain ⟨c2, e2, d2, w2⟩ := ih (.rep a (mn - 1) (mx - 1)) _ _ _ _ hb
             refine ⟨c1 ++ c2, by rw [e1, e2]; simp, ?_, ?_⟩
             · simp only [Den, List.map_append] at d2 ⊢
@@ -329,25 +340,26 @@ theorem run_sound (g : Grammar) : ∀ (fuel : Nat) (e : Expr) (atStart : Bool) (
               · exact w1 t ht
               · exact w2 t ht
           · split at h
-            · injection h with h; injection h with h1 h2; subst h1; subst h2
-              refine ⟨c1, e1, ?_, w1⟩
-              simp only [Den]
-              subst hk
-              simp only [Nat.add_sub_cancel]
-              have := RepP.cons k c1 (ta.map Tree.rule) [] [] d1 (.nil (P := Den g a) k)
-              refine ⟨by simpa using this, fun _ _ => ⟨c1, _, [], [], d1, .nil _, by simp, by simp⟩⟩
+            · simp only [Res.ok.injEq] at h
+              obtain ⟨rfl, rfl⟩ := h
+              exact ⟨c1, e1, hsingle, w1⟩
             · cases h
+          · cases h
         · split at h
           · rename_i hmn
-            injection h with h; injection h with h1 h2; subst h1; subst h2
+            simp only [Res.ok.injEq] at h
+            obtain ⟨rfl, rfl⟩ := h
             exact ⟨[], by simp, by simp only [Den, List.map_nil]; exact ⟨.nil _, fun h0 => absurd hmn h0⟩, by simp⟩
           · cases h
+        · cases h
     | notP a =>
       simp only [run] at h
       split at h
       · cases h
-      · injection h with h; injection h with h1 h2; subst h1; subst h2
+      · simp only [Res.ok.injEq] at h
+        obtain ⟨rfl, rfl⟩ := h
         exact ⟨[], by simp, by simp [Den], by simp⟩
+      · cases h
     | rule name =>
       simp only [run] at h
       split at h
@@ -358,17 +370,20 @@ theorem run_sound (g : Grammar) : ∀ (fuel : Nat) (e : Expr) (atStart : Bool) (
           obtain ⟨c, e1, d1, w1⟩ := ih rd.body _ _ _ _ hb
           split at h
           · rename_i hs
-            injection h with h; injection h with h1 h2; subst h1; subst h2
+            simp only [Res.ok.injEq] at h
+            obtain ⟨rfl, rfl⟩ := h
             exact ⟨c, e1, by simp [Den, hfind, hs], w1⟩
           · rename_i hs
-            injection h with h; injection h with h1 h2; subst h1; subst h2
+            simp only [Res.ok.injEq] at h
+            obtain ⟨rfl, rfl⟩ := h
             refine ⟨c, e1, by simp [Den, hfind, hs, Tree.rule], ?_⟩
             intro t ht
             simp only [List.mem_singleton] at ht
             subst ht
             subst e1
             rw [take_of_append]
-            exact .node name c kids rd hfind d1 w1
+            exact .node name c kids rd hfind d1 (hX name rd fuel _ _ _ _ hfind hb) w1
+        · cases h
         · cases h
 
 end Emu2a.Peg
